@@ -202,7 +202,7 @@ impl RewardMonitor {
             }
             return Ok(());
         }
-        if matches!(op, Op::AdvanceClock(_) | Op::FundRewardVault { .. }) {
+        if matches!(op, Op::AdvanceClock(_) | Op::FundRewardVault { .. } | Op::AdvanceEpoch(_) | Op::SetTransferFee { .. }) {
             return Ok(());
         }
         if !upd {
